@@ -869,7 +869,14 @@ macro_rules! search_enc_c13 {
             if other.w != ct.w && other.w.len() == ct.w.len() {
                 let mut ct2 = ct.clone();
                 ct2.w = other.w.clone();
-                enc_c13_expect(s, "w_replaced_gives_nothing", format!("{id}|wr"), &ct2, sig, m, false, det.clone(), json!({"component": "w", "replace": "w_from_other_ciphertext_same_message", "new_w": enc_hx(&other.w)}));
+                // the two payloads can coincide on the bytes that cover the length prefix and the message (for the empty
+                // message that is one byte: probability 2^-8); then only padding differs and the original may come back
+                let a = auth.min(ct.w.len());
+                if other.w[..a] == ct.w[..a] {
+                    enc_c13_expect(s, "w_padding_replaced_original_or_nothing", format!("{id}|wr"), &ct2, sig, m, true, det.clone(), json!({"component": "w", "replace": "w_from_other_ciphertext_same_message (same authenticated bytes)", "new_w": enc_hx(&other.w)}));
+                } else {
+                    enc_c13_expect(s, "w_replaced_gives_nothing", format!("{id}|wr"), &ct2, sig, m, false, det.clone(), json!({"component": "w", "replace": "w_from_other_ciphertext_same_message", "new_w": enc_hx(&other.w)}));
+                }
             }
             // --- scheme label changed (signature kept): nothing
             for other_scheme in 0..3u8 {
